@@ -1812,7 +1812,7 @@ class DynDiGraph(nx.DiGraph):
                     H.add_interaction(u, v, t=t[0], e=t[1] + 1)
 
         H.graph = deepcopy(self.graph)
-        H._node = deepcopy(self._node)
+        H._node = {n: deepcopy(d) for n, d in self._node.items()}
         return H
 
     def add_path(self, nodes, t=None):
